@@ -6,6 +6,12 @@ HERE = Path(__file__).resolve().parent.parent
 TXT = "bounded symbolic execution of the real functions (CrossHair + z3); the solver's verdict covers every value of the symbolic inputs inside the stated bounds; nothing is claimed outside them; un-exhausted partitions are reported as unexplored remainder"
 
 CHECKS = {
+    "C01": ("CrossHair/z3 exploration of symbolic IH5 container stacks under the real ih5/overlay.py on an in-memory HDF5 substrate: read == fold(stack); one write step == same step on the materialised single container == plain file; Inv preserved (induction over histories); counterexamples replayed as public-API histories on real h5py",
+            "trusted: in-memory h5py substrate (conformance-tested against real h5py on every run); reference fold written from PATCH_THEORY.md; representation invariant Inv; kinds enumerated by solver-driven realisation, real code then runs on concrete state; bounds: <=3 containers (thorough 4), universes of <=3 paths + 1 attribute, 14 operations x 6 path arguments",
+            "3.3, 4/C01"),
+    "C09": ("same (W) obligation as C01 with the plain substrate file as third party: every raw protocol operation succeeds/fails alike and leaves the same tree for any patch-boundary placement; protocol members enumerated from util/types.py",
+            "trusted: as C01; driver level only (container-level metadata/query lock-step is outside, see C06); exception classes not compared",
+            "4/C09"),
     # id: (technique, level_note, design_ref)
     "C16": ("CrossHair symbolic execution of PluginRef/PluginGroup/register_in_group/ep-name codec + z3 regex-inclusion lemmas generated from the repo's regex constants",
             "trusted: CrossHair 0.0.110 + z3 5.1 models of CPython str/int/tuple; launcher shims (DESIGN 2); PluginRef.construct stand-ins; _load_plugin stubbed; bounds: strings<=2, <=3 registrations, versions 0..1 (0..2 thorough), codec components 0..999",
